@@ -154,7 +154,43 @@ func load(root, dir string) *pkg {
 				}
 			}
 		}
+		// constant expressions over literals (48 << 10, 4 * 1024, 1<<16 - 1) are values a condition may be keyed on
+		var fold func(e ast.Expr) (int64, bool)
+		fold = func(e ast.Expr) (int64, bool) {
+			switch x := e.(type) {
+			case *ast.ParenExpr:
+				return fold(x.X)
+			case *ast.BasicLit:
+				if x.Kind == token.INT {
+					v, err := strconv.ParseInt(strings.ReplaceAll(x.Value, "_", ""), 0, 64)
+					return v, err == nil
+				}
+			case *ast.BinaryExpr:
+				a, ok1 := fold(x.X)
+				b, ok2 := fold(x.Y)
+				if ok1 && ok2 {
+					switch x.Op {
+					case token.SHL:
+						if b >= 0 && b < 62 {
+							return a << uint(b), true
+						}
+					case token.MUL:
+						return a * b, true
+					case token.ADD:
+						return a + b, true
+					case token.SUB:
+						return a - b, true
+					}
+				}
+			}
+			return 0, false
+		}
 		ast.Inspect(f, func(y ast.Node) bool {
+			if be, ok := y.(*ast.BinaryExpr); ok {
+				if v, ok := fold(be); ok {
+					p.ints[v] = true
+				}
+			}
 			if bl, ok := y.(*ast.BasicLit); ok {
 				switch bl.Kind {
 				case token.INT:
